@@ -585,6 +585,8 @@ class World:
             b["state"] = "CANCELLED"
         elif b["state"] == "RUNNING":
             self.kill_batch(bid, "CANCELLED")
+        else:
+            return 1, "", "scancel: error: Kill job error on job id %s: Invalid job id specified\n" % bid  # already gone
         return 0, "", ""
 
     def kill_batch(self, bid, state="TIMEOUT"):
